@@ -23,7 +23,7 @@ def replay(path):
         exp = rec['expected']
         res = {'ok': exp['ok'], 'ex': set(exp['ex']), 'ref': exp['ref'], 'caps': tuple(exp['caps']),
                'refsdef': True, 'tags': set()}
-        fails, info = J.observe_case(term, rec['spelling'], res)
+        fails, info = J.observe_case(term, rec['spelling'], res, deep=True, members=True)
         print('term      :', rec['term'], '[%s]' % rec['spelling'])
         print('expected  :', exp)
         print('observed  :', info)
